@@ -68,7 +68,27 @@ class Shrink(Checker):
         return self.clean(K, tab, "replay")
 
 
+def wc6_unit(u) -> Stats:
+    _, games, comps = u
+    from .. import sam6
+    st = Stats()
+    for tag, v in games:
+        memo: dict = {}
+        for comp in comps:
+            chk = Shrink(6, v, 0.0, memo)
+            chk.gaps_on = False
+            sam6.sublattice(st, v, comp, chk, tag)
+            probes = [c for c in A.explorable_ids(6)] if tag.endswith(":sensitive") else sam6.probe_coalitions()
+            sam6.star(st, v, comp, chk, tag, probes, compare_canonical=False)
+            st.nontrivial += len(chk.nontrivial)
+            if st.nviol >= 3:
+                return st
+    return st
+
+
 def unit(u) -> Stats:
+    if u[0] == "wc6":
+        return wc6_unit(u)
     if u[0] == "env":
         return env_unit(u)
     n, tag, v, comps, modes, tol = u
@@ -158,12 +178,15 @@ def units(run: Run):
     for i, g in enumerate(A.a3_sa()):
         for tag, gv in A.with_shifts([g], 3):
             us.append((3, f"{tag}#{i}", gv, SA, ("euler",), 0.0))
+        if i % 2 == seed % 2 or not quick:
+            for tag, gv in A.with_scales([g], 3):
+                us.append((3, f"{tag}#{i}", gv, SA, (), 0.0))
     games4 = list(enumerate(A.a4_sa_reps(seed)))
     if not quick:
         games4 = [(i, g) for i, g in enumerate(A.a4_sa_full()) if i % 2 == seed % 2]
     for i, g in games4:
-        variants = list(A.with_shifts([g], 4))
-        tag, gv = variants[(i + seed) % 3]
+        variants = A.all_variants(g, 4)
+        tag, gv = variants[(i + seed) % 5]
         modes = ("euler",) if i % (30 if quick else 128) == seed % (30 if quick else 128) else ()
         if not quick or i % 3 == seed % 3:
             modes += ("gaps",)
@@ -172,6 +195,7 @@ def units(run: Run):
     for i, g in enumerate(A.a3_sam()):
         for tag, gv in (("plain", g), ("shift", A.shifted(g, SAM_SHIFT3)), ("dyadic", A.scaled(g, 0.25))):
             us.append((3, f"sam-{tag}#{i}", gv, ("sam_apx_1", "sam_apx_10", "sam_apx_100"), ("euler",), 0.0))
+        us.append((3, f"sam-bigshift#{i}", A.shifted(g, (-A.BIG, -2 * A.BIG, 0.0)), ("sam_apx_1", "sam_apx_10"), (), 0.0))
         if i % (6 if quick else 1) == seed % (6 if quick else 1):
             us.append((3, f"sam-plain#{i}", g, ("sam_apx_1000",), (), 0.0))
     sam4 = A.a4_sam() if quick else A.a4_sam((-3, -2, -1, 0))
@@ -187,6 +211,10 @@ def units(run: Run):
         if quick and i % 8 != seed % 8:
             continue
         us.append((4, f"sam01#{i}", g, ("sam_apx_100",), (), 0.0))
+    from .. import sam6
+    sel = sam6.sensitive_first(list(sam6.family(dense_only=True)), every=12 if quick else 3)
+    for i in range(0, len(sel), 6):
+        us.append(("wc6", sel[i:i + 6], ("sam_apx_1",) if quick else ("sam_apx_1", "sam_apx_10")))
     # gym level: every reveal order after every reset of one long-lived env with differing scripted hidden games
     g3 = A.a3_sa()
     trip3 = [A.shifted(g3[(41 * (seed + 1) + 331 * k) % len(g3)], A.ADD3) if k % 2 else g3[(41 * (seed + 1) + 331 * k) % len(g3)] for k in range(3)]
@@ -222,6 +250,8 @@ def units(run: Run):
 
 
 def cost(u) -> float:
+    if u[0] == "wc6":
+        return 4000
     if u[0] == "env":
         return 30 if u[1] == 4 else 3
     n, comps = u[0], u[3]
